@@ -12,7 +12,7 @@ FLAVOURS = ["plain_str", "str_ids", "obj_cb", "obj_derived", "dw", "typed_str", 
 
 KEY_MAPS = {"default": True, "off": False,
             "custom": {"data_id": "i", "str": "s", "kind": "k", "type": "t", "name": "n", "age": "a"}}
-VALUE_MAPS = {"default": True, "off": False, "custom": {"type": ["person", "dept"]}}
+VALUE_MAPS = {"default": True, "off": False, "custom": {"type": ["person", "dept"], "title": [f"d{i}" for i in range(64)]}}
 COMPRESSIONS = {"off": False, "true": True, "stored": zipfile.ZIP_STORED, "deflated": zipfile.ZIP_DEFLATED,
                 "bzip2": zipfile.ZIP_BZIP2, "lzma": zipfile.ZIP_LZMA}
 TARGETS = ["path", "stream"]
@@ -240,6 +240,8 @@ def key_map_for(flavour, name):
 
     if flavour == "fs" and name == "custom":
         return {"n": "N", "m": "M", "data_id": "i"}
+    if flavour == "dw" and name == "custom":
+        return {"title": "T", "num": "N", "data_id": "i"}
     return copy.deepcopy(KEY_MAPS[name])
 
 
